@@ -64,11 +64,20 @@ pub fn outcome(r: std::thread::Result<Result<Value, cel_interpreter::ExecutionEr
 
 /// Execute a compiled program against a fresh default context holding `vars` and the zoo.
 pub fn execute(prog: &Program, vars: &[(String, Value)], with_zoo: bool) -> (J, Vec<J>) {
+    execute_with(prog, vars, with_zoo, &[])
+}
+
+/// As `execute`, additionally registering logging host functions under the given names AFTER the
+/// defaults and the zoo (so they replace a built-in or zoo function of that name).
+pub fn execute_with(prog: &Program, vars: &[(String, Value)], with_zoo: bool, overrides: &[String]) -> (J, Vec<J>) {
     let log = zoo::new_log();
     let r = catch_unwind(AssertUnwindSafe(|| {
         let mut ctx = Context::default();
         if with_zoo {
             zoo::register(&mut ctx, &log);
+        }
+        for o in overrides {
+            zoo::register_override(&mut ctx, &log, o);
         }
         for (n, v) in vars {
             ctx.add_variable_from_value(n.clone(), v.clone());
